@@ -169,7 +169,7 @@ def gen_lime(rng, tier):
         if perm not in xs:
             xs[1] = perm
     mode = rng.choice(["euclidean", "euclidean", "cosine"])
-    width = rng.choice([1.0, 2.0, 4.0, 8.0, 45.0, 1.5, 0.75, 3.0]) if mode == "euclidean" else rng.choice([1.0, 2.0, 0.5, 0.25, 45.0, 0.75])
+    width = rng.choice([1.0, 2.0, 4.0, 8.0, 45.0, 1.5, 0.75, 3.0, 0.5, 0.25, 0.25]) if mode == "euclidean" else rng.choice([1.0, 2.0, 0.5, 0.25, 45.0, 0.75])
     params = fam.gen_fquad(rng, ncls, dim)
     big = None
     if mode == "euclidean" and rng.random() < 0.25:
